@@ -834,8 +834,263 @@ fn ipv6_value(a: &[&str]) -> String {
     };
     value_case(&ipv6_ops_c(), &h, &unhex(a[7]))
 }
+/// destination hex,source hex,ether_type
+fn eth_canon(h: &Ethernet2Header) -> String {
+    format!("{},{},{}", hex(&h.destination), hex(&h.source), h.ether_type.0)
+}
+fn eth_ops_c() -> Ops<Ethernet2Header> {
+    let mut ops = eth_ops();
+    ops.canon = Some(eth_canon);
+    ops
+}
+fn eth_value(a: &[&str]) -> String {
+    let arr6 = |s: &str| -> Option<[u8; 6]> { unhex(s).try_into().ok() };
+    let (Some(dst), Some(src)) = (arr6(a[0]), arr6(a[1])) else {
+        return "noval".to_string();
+    };
+    let et: u64 = a[2].parse().unwrap();
+    if et > 65535 {
+        return "noval".to_string();
+    }
+    let h = Ethernet2Header {
+        source: src,
+        destination: dst,
+        ether_type: EtherType(et as u16),
+    };
+    let fb = eth_canon(&Ethernet2Header::from_bytes(h.to_bytes()));
+    format!("{} fb={}", value_case(&eth_ops_c(), &h, &unhex(a[3])), fb)
+}
+/// pcp,dei,vlan_id,ether_type
+fn vlan_canon(h: &SingleVlanHeader) -> String {
+    format!(
+        "{},{},{},{}",
+        h.pcp.value(),
+        h.drop_eligible_indicator as u8,
+        h.vlan_id.value(),
+        h.ether_type.0
+    )
+}
+fn vlan_ops_c() -> Ops<SingleVlanHeader> {
+    let mut ops = vlan_ops();
+    ops.canon = Some(vlan_canon);
+    ops
+}
+fn vlan_value(a: &[&str]) -> String {
+    let p = |i: usize| -> u64 { a[i].parse().unwrap() };
+    if p(0) > 255 || p(2) > 65535 || p(3) > 65535 {
+        return "noval".to_string();
+    }
+    let (Ok(pcp), Ok(vid)) = (VlanPcp::try_new(p(0) as u8), VlanId::try_new(p(2) as u16)) else {
+        return "noval".to_string();
+    };
+    let h = SingleVlanHeader {
+        pcp,
+        drop_eligible_indicator: a[1] == "1",
+        vlan_id: vid,
+        ether_type: EtherType(p(3) as u16),
+    };
+    let fb = vlan_canon(&SingleVlanHeader::from_bytes(h.to_bytes()));
+    format!("{} fb={}", value_case(&vlan_ops_c(), &h, &unhex(a[4])), fb)
+}
+/// packet_type,arp_hrd_type,sender_address_valid_length,address hex,kind,value
+fn sll_canon(h: &LinuxSllHeader) -> String {
+    let (k, v) = match h.protocol_type {
+        LinuxSllProtocolType::Ignored(v) => ("ign", v),
+        LinuxSllProtocolType::NetlinkProtocolType(v) => ("nl", v),
+        LinuxSllProtocolType::GenericRoutingEncapsulationProtocolType(v) => ("gre", v),
+        LinuxSllProtocolType::EtherType(v) => ("et", v.0),
+        LinuxSllProtocolType::LinuxNonstandardEtherType(v) => ("ns", u16::from(v)),
+    };
+    format!(
+        "{},{},{},{},{},{}",
+        u16::from(h.packet_type),
+        u16::from(h.arp_hrd_type),
+        h.sender_address_valid_length,
+        hex(&h.sender_address),
+        k,
+        v
+    )
+}
+fn sll_ops_c() -> Ops<LinuxSllHeader> {
+    let mut ops = sll_ops();
+    ops.canon = Some(sll_canon);
+    // read = read_exact(16) + from_bytes (no precondition needed on this tree)
+    ops.rd = Some(|b| cur_read!(b, |c: &mut Cursor<&[u8]>| LinuxSllHeader::read(c)));
+    ops
+}
+fn sll_value(a: &[&str]) -> String {
+    let p = |i: usize| -> u64 { a[i].parse().unwrap() };
+    if p(0) > 65535 || p(1) > 65535 || p(2) > 65535 || p(5) > 65535 {
+        return "noval".to_string();
+    }
+    let Ok(pt) = LinuxSllPacketType::try_from(p(0) as u16) else {
+        return "noval".to_string();
+    };
+    let Ok(addr): Result<[u8; 8], _> = unhex(a[3]).try_into() else {
+        return "noval".to_string();
+    };
+    let v = p(5) as u16;
+    let proto = match a[4] {
+        "ign" => LinuxSllProtocolType::Ignored(v),
+        "nl" => LinuxSllProtocolType::NetlinkProtocolType(v),
+        "gre" => LinuxSllProtocolType::GenericRoutingEncapsulationProtocolType(v),
+        "et" => LinuxSllProtocolType::EtherType(EtherType(v)),
+        _ => match LinuxNonstandardEtherType::try_from(v) {
+            Ok(x) => LinuxSllProtocolType::LinuxNonstandardEtherType(x),
+            Err(_) => return "noval".to_string(),
+        },
+    };
+    let h = LinuxSllHeader {
+        packet_type: pt,
+        arp_hrd_type: ArpHardwareId(p(1) as u16),
+        sender_address_valid_length: p(2) as u16,
+        sender_address: addr,
+        protocol_type: proto,
+    };
+    let fb = match LinuxSllHeader::from_bytes(h.to_bytes()) {
+        Ok(x) => sll_canon(&x),
+        Err(_) => "err".to_string(),
+    };
+    format!("{} fb={}", value_case(&sll_ops_c(), &h, &unhex(a[6])), fb)
+}
+/// hw type,proto type,hw size,proto size,operation,4 address slices hex
+fn arp_canon(h: &ArpPacket) -> String {
+    format!(
+        "{},{},{},{},{},{},{},{},{}",
+        h.hw_addr_type.0,
+        h.proto_addr_type.0,
+        h.hw_addr_size(),
+        h.protocol_addr_size(),
+        h.operation.0,
+        hex(h.sender_hw_addr()),
+        hex(h.sender_protocol_addr()),
+        hex(h.target_hw_addr()),
+        hex(h.target_protocol_addr())
+    )
+}
+fn arp_ops_c() -> Ops<ArpPacket> {
+    let mut ops = arp_ops();
+    ops.canon = Some(arp_canon);
+    ops
+}
+/// v arp <hat> <pat> <op> <sh> <sp> <th> <tp> <pre: - | a,b> <trail>
+fn arp_value(a: &[&str]) -> String {
+    let p = |i: usize| -> u64 { a[i].parse().unwrap() };
+    if p(0) > 65535 || p(1) > 65535 || p(2) > 65535 {
+        return "noval".to_string();
+    }
+    let (hat, pat, op) = (ArpHardwareId(p(0) as u16), EtherType(p(1) as u16), ArpOperation(p(2) as u16));
+    let (sh, sp, th, tp) = (unhex(a[3]), unhex(a[4]), unhex(a[5]), unhex(a[6]));
+    let h = if a[7] == "-" {
+        match ArpPacket::new(hat, pat, op, &sh, &sp, &th, &tp) {
+            Ok(h) => h,
+            Err(_) => return "noval".to_string(),
+        }
+    } else {
+        let ab: Vec<usize> = a[7].split(',').map(|x| x.parse().unwrap()).collect();
+        let (x, y) = (vec![0xaau8; ab[0]], vec![0xaau8; ab[1]]);
+        let Ok(mut h) = ArpPacket::new(hat, pat, op, &x, &y, &x, &y) else {
+            return "noval".to_string();
+        };
+        if h.set_hw_addrs(&sh, &th).is_err() || h.set_protocol_addrs(&sp, &tp).is_err() {
+            return "noval".to_string();
+        }
+        h
+    };
+    value_case(&arp_ops_c(), &h, &unhex(a[8]))
+}
+/// operation,sender mac,sender ip,target mac,target ip
+fn arpeth_canon(h: &ArpEthIpv4Packet) -> String {
+    format!(
+        "{},{},{},{},{}",
+        h.operation.0,
+        hex(&h.sender_mac),
+        hex(&h.sender_ipv4),
+        hex(&h.target_mac),
+        hex(&h.target_ipv4)
+    )
+}
+fn arpeth_ops_c() -> Ops<ArpEthIpv4Packet> {
+    let mut ops = arpeth_ops();
+    ops.canon = Some(arpeth_canon);
+    ops
+}
+fn arpeth_value(a: &[&str]) -> String {
+    let op: u64 = a[0].parse().unwrap();
+    let a6 = |s: &str| -> Option<[u8; 6]> { unhex(s).try_into().ok() };
+    let a4 = |s: &str| -> Option<[u8; 4]> { unhex(s).try_into().ok() };
+    let (Some(sm), Some(si), Some(tm), Some(ti)) = (a6(a[1]), a4(a[2]), a6(a[3]), a4(a[4])) else {
+        return "noval".to_string();
+    };
+    if op > 65535 {
+        return "noval".to_string();
+    }
+    let h = ArpEthIpv4Packet {
+        operation: ArpOperation(op as u16),
+        sender_mac: sm,
+        sender_ipv4: si,
+        target_mac: tm,
+        target_ipv4: ti,
+    };
+    value_case(&arpeth_ops_c(), &h, &unhex(a[5]))
+}
+/// start,final,nh:spi:seq:icv | -
+fn ext4_canon(h: &Ext4) -> String {
+    format!(
+        "{},{},{}",
+        h.0 .0,
+        h.2 .0,
+        match &h.1.auth {
+            Some(a) => format!("{}:{}:{}:{}", a.next_header.0, a.spi, a.sequence_number, hex(a.raw_icv())),
+            None => "-".to_string(),
+        }
+    )
+}
+fn ext4_ops_c() -> Ops<Ext4> {
+    let mut ops = ext4_ops();
+    ops.canon = Some(ext4_canon);
+    ops
+}
+/// v ext4 <start> <nh:spi:seq:icv | -> <trail>
+fn ext4_value(a: &[&str]) -> String {
+    let start: u64 = a[0].parse().unwrap();
+    if start > 255 {
+        return "noval".to_string();
+    }
+    let auth = if a[1] == "-" {
+        None
+    } else {
+        let f: Vec<&str> = a[1].split(':').collect();
+        let p = |i: usize| -> u64 { f[i].parse().unwrap() };
+        if p(0) > 255 || p(1) > u32::MAX as u64 || p(2) > u32::MAX as u64 {
+            return "noval".to_string();
+        }
+        match IpAuthHeader::new(IpNumber(p(0) as u8), p(1) as u32, p(2) as u32, &unhex(f[3])) {
+            Ok(h) => Some(h),
+            Err(_) => return "noval".to_string(),
+        }
+    };
+    let fin = match &auth {
+        Some(h) => h.next_header,
+        None => IpNumber(start as u8),
+    };
+    let v = Ext4(IpNumber(start as u8), Ipv4Extensions { auth }, fin);
+    value_case(&ext4_ops_c(), &v, &unhex(a[2]))
+}
 fn run_linknet(parts: &[&str]) -> Option<String> {
     match (parts[0], parts[1]) {
+        ("v", "ext4") => Some(ext4_value(&parts[2..])),
+        ("b", "ext4") => Some(bytes_case(&ext4_ops_c(), &unhex(parts[2]))),
+        ("v", "eth") => Some(eth_value(&parts[2..])),
+        ("b", "eth") => Some(bytes_case(&eth_ops_c(), &unhex(parts[2]))),
+        ("v", "vlan") => Some(vlan_value(&parts[2..])),
+        ("b", "vlan") => Some(bytes_case(&vlan_ops_c(), &unhex(parts[2]))),
+        ("v", "sll") => Some(sll_value(&parts[2..])),
+        ("b", "sll") => Some(bytes_case(&sll_ops_c(), &unhex(parts[2]))),
+        ("v", "arp") => Some(arp_value(&parts[2..])),
+        ("b", "arp") => Some(bytes_case(&arp_ops_c(), &unhex(parts[2]))),
+        ("v", "arpeth") => Some(arpeth_value(&parts[2..])),
+        ("b", "arpeth") => Some(bytes_case(&arpeth_ops_c(), &unhex(parts[2]))),
         ("v", "macsec") => Some(macsec_value(&parts[2..])),
         ("b", "macsec") => {
             let mut ops = macsec_ops();
